@@ -11,6 +11,16 @@ from .values import R, I
 Z3_TIMEOUT_MS = int(os.environ.get("PYVC_Z3_TIMEOUT_MS", "10000"))
 CVC5_TIMEOUT_S = int(os.environ.get("PYVC_CVC5_TIMEOUT_S", "10"))
 
+# z3's LP-based tightening of monomial bounds (nla::monomial_bounds::tighten_lp) can spend unbounded time in big-rational
+# powers WITHOUT honouring the solver timeout (observed: a worker at 100 % CPU for 20+ minutes under load); it is switched off.
+# All obligations of all 20 checks are discharged without it (and slightly faster).  The harness additionally runs every task
+# under a hard wall-clock limit (harness._run_tasks_guarded).
+z3.set_param("smt.arith.nl.optimize_bounds", False)
+# optional z3 parameters for experiments: PYVC_Z3_PARAMS="smt.arith.nl.optimize_bounds=false,..."
+for _kv in filter(None, os.environ.get("PYVC_Z3_PARAMS", "").split(",")):
+    _k, _v = _kv.split("=")
+    z3.set_param(_k, {"true": True, "false": False}.get(_v, int(_v) if _v.isdigit() else _v))
+
 SumF = z3.Function("SumF", I, z3.ArraySort(I, R), R)
 ProdF = z3.Function("ProdF", I, z3.ArraySort(I, R), R)
 
